@@ -827,6 +827,11 @@ func (p Patch) add(doc *container, op Operation, options *ApplyOptions) error {
 			return err
 		}
 
+		// null decodes into an object without members; it is not a document.
+		if d, ok := pd.(*partialDoc); ok && d.obj == nil {
+			return fmt.Errorf("add operation value must be object or array: %w", ErrInvalid)
+		}
+
 		*doc = pd
 
 		return nil
